@@ -81,7 +81,9 @@ func runC06(c *Ctx) {
 						c.Check("signed_verifies_after_wire", okw && v, "NewRouterInfo", [][]byte{b}, "", fmt.Sprintf("parse err=%v rem=%d", perr, len(rem)))
 					}
 				} else {
-					c.Check("constructor_accepts_admissible", na > 255, "NewRouterInfo", nil, "", fmt.Sprintf("NewRouterInfo failed: %v", nerr))
+					// a router without addresses is inadmissible by the library's own RouterInfo.Validate
+					// (C14), so the constructor refusing it produces nothing that C06 speaks about
+					c.Check("constructor_accepts_admissible", na > 255 || len(addrs) == 0, "NewRouterInfo", nil, "", fmt.Sprintf("NewRouterInfo failed: %v", nerr))
 				}
 			}
 		}
